@@ -153,7 +153,7 @@ type session struct {
 	owner  map[uint64]int // offset -> index+1 of the client's region there, or heldByClient
 }
 
-const wait = 3 * time.Second
+const wait = 10 * time.Second
 
 func newSession(seg, peer *vgirpc.ShmSegment) *session {
 	s := &session{srv: vgirpc.NewServer(), c2s: newBufPipe(), s2c: newBufPipe(),
